@@ -79,6 +79,11 @@ func init() {
 				c.addExpect("obj.new "+k+" "+hx(d), "stable", hx(id)+" "+hx(content))
 				c.addExpect("obj.get "+hx(id), "stable", "ok "+k+" "+hx(d))
 				c.addExpect("obj.get "+hx(sha1sum(oc)), "stable", "ok blob "+hx(other))
+				// an empty file under the object's name (left by a store that failed after creating it) is not the object:
+				// the next store writes it, and a store that reports success leaves an object that reads back
+				if i%5 == 0 && len(d) < 5000 {
+					c.addExpect("obj.heal "+k+" "+hx(d), "roundtrip", "ok "+k+" "+hx(d))
+				}
 				// an id that was never stored
 				c.addExpect("obj.get "+hx(sha1sum(append([]byte("x"), content...))), "roundtrip", "err")
 				cases = append(cases, c)
